@@ -291,7 +291,9 @@ class Facts:
       if i == j and (c < 0 or (c == 0 and s)):
         return True
     for kind, e in self.items:
-      if kind == 'ne' and e == 0:
+      if kind == 'ne' and (e == 0 or ('eq', e) in self.items or ('eq', -e) in self.items):
+        return True
+      if kind == 'ne' and self.sign(e) == {'zero'}:
         return True
       if kind in ('true', 'false') and (('false' if kind == 'true' else 'true'), e) in self.items:
         return True
@@ -954,6 +956,8 @@ class Interp:
       return v if v.is_integer else trunc(v)
     if fname == 'float' and len(args) == 1:
       return self.num(args[0])
+    if fname == 'abs' and len(args) == 1 and isinstance(args[0], sp.Basic):
+      return sp.Abs(args[0])
     if fname == 'len' and len(args) == 1:
       if isinstance(args[0], Tup):
         return sp.Integer(len(args[0]))
